@@ -544,10 +544,18 @@ func traceS(tr []int) string {
 	return strings.Join(l, ",")
 }
 
-// isNilPacket reports whether the interface holds no packet.
+// isNilPacket reports whether the interface holds no packet: the caller's
+// "p != nil" test. A nil pointer wrapped in the interface is NOT nil to a caller
+// (and calling a method on it panics), so it counts as a packet here and shows
+// up as BOTH next to an error.
 func isNilPacket(p mq.Packet) bool {
+	return p == nil
+}
+
+// typedNil reports a non-nil interface holding a nil pointer.
+func typedNil(p mq.Packet) bool {
 	if p == nil {
-		return true
+		return false
 	}
 	v := reflect.ValueOf(p)
 	return v.Kind() == reflect.Ptr && v.IsNil()
@@ -566,6 +574,9 @@ func readAll(max int, r *scriptReader) string {
 			}()
 			p, err := mq.ReadPacket(r)
 			switch {
+			case typedNil(p):
+				b.WriteString("TYPEDNIL | ")
+				stop = true
 			case !isNilPacket(p) && err == nil:
 				b.WriteString(pktResult(p))
 				b.WriteString(" | ")
